@@ -160,7 +160,7 @@ func (p *c17) build(seed uint64, tier string) []SendScenario {
 					extras := []int64{0, 1, 5, 6, 60, 130, 400, 700, 1000, 1300}
 					if tier == "thorough" {
 						extras = nil
-						for k := int64(0); k < 1600; k += 37 {
+						for k := int64(0); k < 1800; k += 5 {
 							extras = append(extras, k)
 						}
 					}
